@@ -118,6 +118,9 @@ func OwnedBy(m Mismatch, a map[string]any, prop string) bool {
 
 		return false
 	}
+	if m.Kind == "reaper.sockets" && prop == "C04" {
+		return true // more than one allocation's relay socket for one 5-tuple
+	}
 	if strings.HasPrefix(m.Kind, "reaper") && (prop == "C06" || prop == "C15" || prop == "C19") {
 		return true // an allocation ended by something else than its lifetime or Refresh 0 / a straggler that acts
 	}
